@@ -143,6 +143,15 @@ func (e *Engine) registerIntrinsics() {
 	e.reg(v+"Or", func(fr *frame, args []value) value { return symOr(args[0], args[1]) })
 	e.reg(v+"Not", func(fr *frame, args []value) value { return symNot(args[0]) })
 	e.reg(v+"Implies", func(fr *frame, args []value) value { return symOr(symNot(args[0]), args[1]) })
+	e.reg(v+"SetJSONSize", func(fr *frame, args []value) value {
+		m := args[0].(*gomap)
+		m.set("pad", iface{t: tString, v: opaqueStr{hint: "padding"}})
+		if fr.i.jsonSizes == nil {
+			fr.i.jsonSizes = map[*gomap]value{}
+		}
+		fr.i.jsonSizes[m] = args[1]
+		return nil
+	})
 	e.reg(v+"Symbolic", func(fr *frame, args []value) value { return true })
 	e.reg(v+"Panics", func(fr *frame, args []value) (res value) {
 		defer func() {
@@ -300,6 +309,8 @@ func (e *Engine) registerIntrinsics() {
 
 	// ---- logging: empty bodies
 	e.regPrefix("(github.com/go-logr/logr.Logger).", noop)
+	e.reg("github.com/go-logr/logr.NewContext", func(fr *frame, args []value) value { return args[0] })
+	e.reg("github.com/go-logr/logr.NewContextWithSlogLogger", func(fr *frame, args []value) value { return args[0] })
 	e.regPrefix("github.com/go-logr/logr.", noop)
 	e.reg("sigs.k8s.io/controller-runtime/pkg/log.FromContext", noop)
 	e.reg("sigs.k8s.io/controller-runtime/pkg/log.IntoContext", func(fr *frame, args []value) value { return args[0] })
